@@ -198,6 +198,15 @@ async def session(ctx, case):
         ctx.violate(key, what, case, {"fault": fault, "position": pos, "victim": victim, "mix": mix})
         return False
 
+    def publish(fn, when):
+        """A device-side publication: an error of one connection must never come back to the driver."""
+        try:
+            fn()
+            return True
+        except Exception as e:
+            return problem(f"connection-error-reaches-the-driver:{type(e).__name__}:{fault}",
+                           f"{when}: publishing raised {e!r} (a broken connection must only affect itself)")
+
     async def check_ended(c, i, when):
         c.resolve()
         ctx.count("ended_connections_checked")
@@ -260,7 +269,8 @@ async def session(ctx, case):
                 for i in live:
                     if i != victim and policy[i] != "Only":
                         expected[i].append(m)
-                D.element_of(drv, "g", "t", "e0").value = m
+                if not publish(lambda: setattr(D.element_of(drv, "g", "t", "e0"), "value", m), "after write-error"):
+                    return
                 await sess.quiesce()
                 c._error(ConnectionResetError("reset"))
                 await sess.quiesce()
@@ -307,7 +317,8 @@ async def session(ctx, case):
             for i in live:
                 if policy[i] != "Only":
                     expected[i].append(m)
-            D.element_of(drv, "g", "t", "e0").value = m
+            if not publish(lambda: setattr(D.element_of(drv, "g", "t", "e0"), "value", m), f"step {idx}"):
+                return
             await sess.quiesce()
         elif st[0] == "dblob":
             marker[0] += 1
@@ -315,7 +326,8 @@ async def session(ctx, case):
             for i in live:
                 if policy[i] in ("Also", "Only"):
                     expected[i].append(m)
-            D.element_of(drv, "g", "b", "e0").value = values.BLOB(m.encode(), ".m")
+            if not publish(lambda: setattr(D.element_of(drv, "g", "b", "e0"), "value", values.BLOB(m.encode(), ".m")), f"step {idx}"):
+                return
             await sess.quiesce()
         if not survivors_ok(f"after step {idx} {st}"):
             return
